@@ -302,8 +302,8 @@ func (r *Reader) decode2D() {
 		case S_Horiz:
 			// first run (of current color)
 			runLength := r.decodeFullRun(currentCol == white)
-			runLength = min(runLength, r.Columns-a0)
 			a0 = max(a0, 0)
+			runLength = min(runLength, r.Columns-a0)
 			r.fillRowBits(a0, a0+runLength, currentCol == 1)
 			a0 += runLength
 
@@ -314,7 +314,8 @@ func (r *Reader) decode2D() {
 			a0 += runLength
 
 		case S_Vert:
-			a1 := b1 + int(int16(entry.Param))
+			// a changing element cannot lie beyond the end of the row
+			a1 := min(b1+int(int16(entry.Param)), r.Columns)
 			r.fillRowBits(a0, a1, currentCol == 1)
 			currentCol = 1 - currentCol
 			a0 = a1
